@@ -503,6 +503,81 @@ def entry_points_oracle(chk):
     chk.count("entry points(oracle only)", n)
 
 
+class ClosableIter:
+    """an iterator (not just an iterable) with its own close(), like a file or a cursor"""
+
+    def __init__(self, chunks, counts):
+        self._it = iter(chunks)
+        self._counts = counts
+
+    def __iter__(self):
+        return self
+
+    def __next__(self):
+        return next(self._it)
+
+    def close(self):
+        self._counts["iterable.close"] += 1
+
+
+def drivers_close_once(chk, rng, quick):
+    """the close clause through werkzeug's own WSGI drivers: test.run_wsgi_app, Client.open and Response.from_app,
+    buffered and streaming, for bodies with and without chunks"""
+    from werkzeug.test import Client, create_environ, run_wsgi_app
+    from werkzeug.wrappers import Response
+    bodies = [[], [b""], [b"a"], [b"ab", b"", b"c"], [b"x"] * 5]
+    cases = [(m, st, b) for m in ("GET", "HEAD", "POST") for st in (200, 204, 304, 404, 100) for b in bodies]
+    n = 0
+    for method, status, chunks in cases:
+        for buffered in (True, False):
+            for body_kind in ("iterator", "iterable", "list"):
+                for driver in ("run_wsgi_app", "client", "from_app"):
+                    counts = {"iterable.close": 0, "cb1": 0, "cb2": 0}
+
+                    def app(environ, start_response):
+                        body = ClosableIter(chunks, counts) if body_kind == "iterator" else (
+                            Closable(chunks) if body_kind == "iterable" else list(chunks))
+                        app.body = body
+                        resp = Response(body, status=status)
+                        resp.call_on_close(lambda: counts.__setitem__("cb1", counts["cb1"] + 1))
+                        resp.call_on_close(lambda: counts.__setitem__("cb2", counts["cb2"] + 1))
+                        return resp(environ, start_response)
+                    case = {"kind": "driver", "driver": driver, "method": method, "status": status, "chunks": [repr(c) for c in chunks],
+                            "buffered": buffered, "body": body_kind}
+                    try:
+                        if driver == "run_wsgi_app":
+                            it, _, _ = run_wsgi_app(app, create_environ("/", method=method), buffered)
+                            got = b"".join(it)
+                            if hasattr(it, "close"):
+                                it.close()
+                        elif driver == "client":
+                            r = Client(app).open("/", method=method, buffered=buffered)
+                            got = r.get_data()
+                            r.close()
+                        else:
+                            outer = Response.from_app(app, create_environ("/", method=method), buffered)
+                            it, _, _ = outer.get_wsgi_response(create_environ("/", method=method))
+                            got = b"".join(it)
+                            it.close()
+                    except Exception as e:  # noqa: BLE001
+                        chk.fail("wsgi-response-raises", f"{driver} raised {e!r}", case)
+                        continue
+                    n += 1
+                    if body_kind == "iterable":
+                        counts["iterable.close"] = app.body.closed
+                    elif body_kind == "list":
+                        counts["iterable.close"] = 1
+                    bodyless = method == "HEAD" or 100 <= status < 200 or status in (204, 304)
+                    want = b"" if bodyless else b"".join(chunks)
+                    if got != want:
+                        chk.fail("wsgi-body-bytes", f"{driver}: body {got!r}, expected {want!r}", case)
+                    elif any(v != 1 for v in counts.values()):
+                        chk.fail("close-through-driver", f"{driver} ({'buffered' if buffered else 'streaming'}): close hooks ran {counts!r}, "
+                                 f"each must run exactly once", case)
+                    chk.case(("driver", driver, method, status, tuple(chunks), buffered, body_kind), nontrivial=True)
+    chk.count("close through run_wsgi_app / Client / from_app", n)
+
+
 def load_corpus():
     import json
     with open(os.path.join(os.path.dirname(COQ), "corpus", PID, "cases.json"), encoding="utf-8") as f:
@@ -616,6 +691,8 @@ def run(chk: Check) -> None:
                    location=loc, autocorrect=rng.random() < 0.5)
         chk.case(("location", loc, _), nontrivial=True)
     chk.count("location(oracle only)", 600 if quick else 12000)
+
+    drivers_close_once(chk, rng, quick)
 
     # ================================================ model side
     exe8 = chk.build_modelrun("C08")
